@@ -5,6 +5,8 @@ import (
 	"context"
 	"encoding/json"
 	"fmt"
+	"golang.org/x/net/html"
+	"golang.org/x/net/html/atom"
 	"reflect"
 	"sort"
 	"strings"
@@ -45,7 +47,7 @@ func c10FS() fstest.MapFS {
 		"fm.vuego":           f("---\nwho: front\nadded: yes\n---\n<p>{{ who }} {{ added }} {{ a }}</p>"),
 		"bad-filter.vuego":   f(`<p>{{ who }}</p><p>{{ who | nosuchfilter }}</p>`),
 		"bad-late.vuego":     f(`<p title="t={{ who }} {{ a | nosuch2 }}">x</p><p>token={{ who }} / {{ who | nosuchfilter }}</p>`),
-		"assign.vuego":       f(`<template :hits="z + 1" section="admin"></template><p>{{ hits }} {{ section }} {{ who }}</p><template v-for="x in xs" :last="x"></template><i>{{ last }}</i>` +
+		"assign.vuego": f(`<template :hits="z + 1" section="admin"></template><p>{{ hits }} {{ section }} {{ who }}</p><template v-for="x in xs" :last="x"></template><i>{{ last }}</i>` +
 			// the long spelling, values the path resolver answers, JSON written literally in an attribute, assignments on chain members and loops
 			`<template v-bind:h2="z + 2" v-bind:w2="who" v-bind:nope="zz.q" list='[1, "two", {"k": 3}]' obj='{"a": {"b": "deep"}}' bad='{oops'></template><p>{{ h2 }}|{{ w2 }}|{{ nope }}|{{ list[1] }}|{{ obj.a.b }}|{{ bad }}</p><i v-for="e in list">{{ e }}</i>` +
 			`<template v-if="t" :c1="who" v-bind:c2="z"></template><template v-else :c1="'no'"></template><p>{{ c1 }}{{ c2 }}</p><template v-for="(i, x) in xs" v-bind:lasti="i" :lastx="x"></template><p>{{ lasti }}{{ lastx }}</p>`),
@@ -55,11 +57,11 @@ func c10FS() fstest.MapFS {
 		// elements whose evaluation writes attributes, driven by a condition that differs between programs
 		"toggle.vuego": f(toggleElems("on", "who", "htmlv", "xs") + `<template include="comp/tcard.vuego" :label="who"></template><template include="comp/tcard.vuego" label="L-{{ who }}"><b>{{ who }}</b></template>`),
 		// a component that forwards values to a nested component, outside any loop
-		"comp/tcard.vuego":  f(`<section :data-l="label"><template include="comp/tlabel.vuego" :title="who" cls="c-{{ label }}"><slot>none</slot></template><template include="comp/tlabel.vuego" :title="label" v-if="on"></template></section>`),
+		"comp/tcard.vuego": f(`<section :data-l="label"><template include="comp/tlabel.vuego" :title="who" cls="c-{{ label }}"><slot>none</slot></template><template include="comp/tlabel.vuego" :title="label" v-if="on"></template></section>`),
 		// a slot that hands values to its content, and a page whose first loop reads the same names from outside the loop
-		"comp/sp.vuego":   f(`<div><slot :who="'slot-who'" :a="'slot-a'" :b="'slot-b'" :n="7" :q="'slot-q'" :v="'slot-v'" :t="false"></slot><slot name="foot" :who="'foot-who'" :z="9"></slot></div>`),
-		"slotprops.vuego": f(`<template include="comp/sp.vuego"><template #default="{ n, q }"><u>{{ n }}{{ q }}</u></template><template v-slot:foot="p"><s>{{ p.z }}</s></template></template><template include="comp/sp.vuego"><i>plain content</i></template>`),
-		"loopread.vuego":  f(`<ol><li v-for="x in xs">{{ who }}|{{ a }}|{{ b }}|{{ n }}|{{ q }}|{{ v }}|{{ z }}|{{ t }}|{{ x }}</li></ol><template include="comp/card.vuego" title="LR"><b>{{ who }}|{{ n }}|{{ z }}</b></template>`),
+		"comp/sp.vuego":     f(`<div><slot :who="'slot-who'" :a="'slot-a'" :b="'slot-b'" :n="7" :q="'slot-q'" :v="'slot-v'" :t="false"></slot><slot name="foot" :who="'foot-who'" :z="9"></slot></div>`),
+		"slotprops.vuego":   f(`<template include="comp/sp.vuego"><template #default="{ n, q }"><u>{{ n }}{{ q }}</u></template><template v-slot:foot="p"><s>{{ p.z }}</s></template></template><template include="comp/sp.vuego"><i>plain content</i></template>`),
+		"loopread.vuego":    f(`<ol><li v-for="x in xs">{{ who }}|{{ a }}|{{ b }}|{{ n }}|{{ q }}|{{ v }}|{{ z }}|{{ t }}|{{ x }}</li></ol><template include="comp/card.vuego" title="LR"><b>{{ who }}|{{ n }}|{{ z }}</b></template>`),
 		"comp/tlabel.vuego": f(`<span :class="cls" :title="title">{{ title }}<slot></slot></span>`),
 	}
 }
@@ -99,6 +101,8 @@ func c10Catalogue() []c10Prog {
 	ps = append(ps, c10Prog{name: "frag:fm.vuego", entry: "VueFragment", page: "fm.vuego", data: c10Data})
 	ps = append(ps, c10Prog{name: "struct:attrs", entry: "LoadRender", page: "attrs.vuego", data: c10Struct})
 	ps = append(ps, c10Prog{name: "struct:vue-maploop", entry: "VueRender", page: "include.vuego", data: c10Struct})
+	ps = append(ps, c10Prog{name: "nodes:mixed", entry: "VueRenderNodes", data: c10Data,
+		page: toggleElems("t", "who", "htmlv", "xs") + `<p :data-a="a" :title="t" style="color:red" v-show="z">{{ who }}</p><template include="comp/once.vuego"></template><i v-for="v in m" v-once>{{ v }}</i><template :hits="z + 1"></template><u>{{ hits }}</u>`})
 	ps = append(ps, c10Prog{name: "string:mixed", entry: "RenderString", data: c10Data,
 		page: `<p :data-a="a" :data-b="b" :title="t">{{ who }}</p><template include="comp/once.vuego"></template><template include="comp/once.vuego"></template><i v-for="v in m">{{ v }}</i>`})
 	for name, d := range map[string]map[string]any{
@@ -126,8 +130,10 @@ func c10Catalogue() []c10Prog {
 }
 
 type c10Engine struct {
-	vue *vuego.Vue
-	tpl vuego.Template
+	vue      *vuego.Vue
+	tpl      vuego.Template
+	nodes    map[string][]*html.Node
+	nodesSrc map[string]string
 }
 
 func c10NewEngine() *c10Engine {
@@ -136,7 +142,7 @@ func c10NewEngine() *c10Engine {
 
 // engines carry a node processor with per-render state (it numbers list items and headings)
 func c10EngineOver(fs fstest.MapFS) *c10Engine {
-	return &c10Engine{vue: vuego.NewVue(fs).RegisterNodeProcessor(&c09Numberer{}), tpl: vuego.NewFS(fs, vuego.WithProcessor(&c09Numberer{}))}
+	return &c10Engine{vue: vuego.NewVue(fs).RegisterNodeProcessor(&c09Numberer{}), tpl: vuego.NewFS(fs, vuego.WithProcessor(&c09Numberer{})), nodes: map[string][]*html.Node{}, nodesSrc: map[string]string{}}
 }
 
 // State that outlives an engine (process-wide memos of parsed paths or compiled expressions) must not let one
@@ -268,6 +274,25 @@ func (e *c10Engine) runWith(p c10Prog, data any) (out string, errs string, dataC
 			err = e.tpl.New().Fill(data).Load(p.page).Render(context.Background(), &buf)
 		case "RenderString":
 			err = e.tpl.New().Fill(data).RenderString(context.Background(), &buf, p.page)
+		case "VueRenderNodes": // nodes the caller parsed once and renders again and again: they stay the caller's
+			if e.nodes[p.name] == nil {
+				e.nodes[p.name], err = html.ParseFragment(strings.NewReader(p.page), &html.Node{Type: html.ElementNode, Data: "body", DataAtom: atom.Body})
+				var sb strings.Builder
+				for _, n := range e.nodes[p.name] {
+					_ = html.Render(&sb, n)
+				}
+				e.nodesSrc[p.name] = sb.String()
+			}
+			if err == nil {
+				err = e.vue.RenderNodes(&buf, e.nodes[p.name], data)
+			}
+			var sb strings.Builder
+			for _, n := range e.nodes[p.name] {
+				_ = html.Render(&sb, n)
+			}
+			if err == nil && sb.String() != e.nodesSrc[p.name] {
+				err = fmt.Errorf("RenderNodes modified the nodes it was given: before %q after %q", e.nodesSrc[p.name], sb.String())
+			}
 		}
 	}()
 	after := fmt.Sprintf("%#v", data)
